@@ -293,10 +293,11 @@ class Tally:
         self.by_tag = {}
 
 
-def handle(ctx, tally, jobs, cases, verdicts, kind):
+def handle(ctx, tally, jobs, cases, kinds, verdicts, extra):
     for i, (job, case) in enumerate(zip(jobs, cases)):
         ctx.evaluations += 1
         case["job"] = job
+        kind = kinds[i]
         tag = case.get("tag", "")
         t = tally.by_tag.setdefault(tag.split(":")[0], [0, 0])
         t[0] += 1
@@ -305,7 +306,7 @@ def handle(ctx, tally, jobs, cases, verdicts, kind):
             t[1] += 1
             continue
         cl = verdicts.get(i, "missing")
-        dr = ctx.judge_extra.get(i)
+        dr = extra.get(i)
         if cl == "ok":
             tally.ok += 1
             # non-trivial: reachable pair whose shortest path is longer than the straight line
@@ -346,24 +347,40 @@ def report(ctx, tally, key, clause, case, what):
         ctx.known_hits[key] = ctx.known_hits.get(key, 0) + 1
 
 
-def process(ctx, tally, jobs, name, kind, interp=False, parallel=8, chunk=30000):
-    """run the jobs through the real code, let TLC judge the observations"""
-    for lo in range(0, len(jobs), chunk):
-        part = jobs[lo:lo + chunk]
-        cases = core.run_jobs("astar_worker", part, env={"NUMBA_DISABLE_JIT": "1"} if interp else None)
-        good = [i for i, c in enumerate(cases) if "error" not in c]
-        v = ctx.judge("AStar_Trace", [strip(cases[i]) for i in good], name="%s_%d" % (name, lo),
-                      stateful=True, workers=2, parallel=parallel)
-        verdicts = {good[k]: cl for k, cl in v.items()}
-        extra = {good[k]: ctx.judge_extra.get(k) for k in v}
-        ctx.judge_extra.clear()
-        ctx.judge_extra.update(extra)
-        handle(ctx, tally, part, cases, verdicts, kind)
-        for c in cases[:2]:
-            if "error" not in c:
-                ctx.sample({"kind": kind, "tag": c.get("tag"), "cross": c["cross"], "conn": c["conn"],
+def process(ctx, tally, groups, name, interp=False, parallel=8, chunk=40000, flush_at=120000):
+    """groups = [(kind, jobs)]: run the jobs through the real code (one worker pool per flush: every worker
+    process pays the import and the JIT compilation once), let TLC judge the observations"""
+    pend = []
+
+    def flush():
+        jobs = [j for _, js in pend for j in js]
+        kinds = [k for k, js in pend for _ in js]
+        del pend[:]
+        if not jobs:
+            return
+        cases = core.run_jobs("astar_worker", jobs, env={"NUMBA_DISABLE_JIT": "1"} if interp else None)
+        for lo in range(0, len(jobs), chunk):
+            part, pk, pj = cases[lo:lo + chunk], kinds[lo:lo + chunk], jobs[lo:lo + chunk]
+            good = [i for i, c in enumerate(part) if "error" not in c]
+            v = ctx.judge("AStar_Trace", [strip(part[i]) for i in good], name="%s_%d" % (name, ctx._n),
+                          stateful=True, workers=2, parallel=parallel)
+            verdicts = {good[k]: cl for k, cl in v.items()}
+            extra = {good[k]: ctx.judge_extra.get(k) for k in v}
+            ctx.judge_extra.clear()
+            handle(ctx, tally, pj, part, pk, verdicts, extra)
+        seen = set()
+        for c, k in zip(cases, kinds):
+            if k not in seen and "error" not in c:
+                seen.add(k)
+                ctx.sample({"kind": k, "tag": c.get("tag"), "cross": c["cross"], "conn": c["conn"],
                             "start": pt_str(c, "sp"), "goal": pt_str(c, "gp"), "path": c["raw"],
-                            "pop_events": len(c["events"])}, limit=8)
+                            "pop_events": len(c["events"])}, limit=10)
+
+    for kind, js in groups:
+        pend.append((kind, js))
+        if sum(len(x[1]) for x in pend) >= flush_at:
+            flush()
+    flush()
 
 
 def surd_cases(lim=7):
@@ -385,8 +402,9 @@ def replay(ctx, tally):
     with open(ctx.replay) as f:
         blob = json.load(f)
     job = blob["case"]["job"]
-    process(ctx, tally, [job], "replay", "replay")
-    process(ctx, tally, [dict(job, events=True)], "replay_steps", "replay", interp=True)
+    process(ctx, tally, [("replay", [job])], "replay")
+    if job["H"] * job["W"] <= 12:
+        process(ctx, tally, [("replay-steps", [dict(job, events=True)])], "replay_steps", interp=True)
 
 
 def run(ctx):
@@ -435,43 +453,44 @@ def run(ctx):
     grids = ctx.pick([(3, 3)], [(3, 3), (2, 4), (2, 5), (3, 4)])
     for (H, W) in grids:
         ctx.model_check("AStar", dict(spec="Spec", invariants=INV, constants=dict(
-            H=H, W=W, CONNS={4, 8}, MUT="none")), "astar_%dx%d" % (H, W), coverage=(H * W == 9 and ctx.tier == "thorough"))
+            H=H, W=W, CONNS={4, 8}, MUT="none")), "astar_%dx%d" % (H, W),
+            coverage=(H * W == 9 and ctx.tier == "thorough"))
     ctx.model_check("AStar", dict(spec="FairSpec", invariants=["TypeOK"], properties=["Termination"],
-                                  constants=dict(H=2, W=3, CONNS={4, 8}, MUT="none")), "astar_2x3_termination")
+                                  constants=dict(H=2, W=3, CONNS={4, 8}, MUT="none")), "astar_2x3_termination",
+                    workers=4)
     for mut, inv in TWINS:
+        # smallest grids on which TLC rejects the twin (hsquared survives every 2x3 layout)
+        H, W, conns = (2, 4, {8}) if mut == "hsquared" else (2, 3, {4, 8})
         ctx.model_check("AStar", dict(spec="Spec", invariants=inv, constants=dict(
-            H=3, W=3, CONNS={8}, MUT=mut)), "neg_" + mut, workers=4, expect="violation")
+            H=H, W=W, CONNS=conns, MUT=mut)), "neg_" + mut, workers=2, expect="violation")
     ctx.exhaustive = True
 
-    # ---- R: the complete space of M through the real code
+    # ---- R + T through the compiled public function
     rgrids = ctx.pick([(3, 3)], [(3, 3), (2, 4), (2, 5)])
-    for (H, W) in rgrids:
-        process(ctx, tally, layout_jobs(H, W, (4, 8), tag="replay_layouts", desc=(H == 2)),
-                "replay_%dx%d" % (H, W), "R")
-    # step-level: every pop of the interpreted search against the model
-    stride = ctx.pick(9, 1)
-    process(ctx, tally, layout_jobs(3, 3, (4, 8), events=True, tag="replay_steps", stride=stride, phase=ctx.seed),
-            "steps_3x3", "R-steps", interp=True)
-    if ctx.tier == "thorough":
-        process(ctx, tally, layout_jobs(2, 4, (4, 8), events=True, tag="replay_steps", desc=True),
-                "steps_2x4", "R-steps", interp=True)
+    groups = [("R", layout_jobs(H, W, (4, 8), tag="replay_layouts", desc=(H == 2))) for (H, W) in rgrids]
     # snapping on the complete 3x3 space
-    process(ctx, tally, layout_jobs(3, 3, (8,), snap=1, tag="replay_snap", stride=ctx.pick(2, 1), phase=ctx.seed),
-            "snap_3x3", "R-snap")
-
-    # ---- T: beyond the exhaustive scope
+    groups.append(("R-snap", layout_jobs(3, 3, (8,), snap=1, tag="replay_snap", stride=ctx.pick(4, 1),
+                                         phase=ctx.seed)))
+    # beyond the exhaustive scope
     sizes = [(4, 4), (4, 6), (5, 5), (6, 5), (5, 7), (7, 7), (6, 6), (3, 7)]
-    process(ctx, tally, maze_jobs(rng, ctx.pick(600, 12000), sizes), "mazes", "T-mazes")
-    process(ctx, tally, maze_jobs(rng, ctx.pick(60, 1500), [(3, 4), (4, 3), (2, 6)], events=True),
-            "maze_steps", "T-steps", interp=True)
+    groups.append(("T-mazes", maze_jobs(rng, ctx.pick(600, 12000), sizes)))
     cj = coord_jobs(4, 5, COORD_SYSTEMS)
     if ctx.tier == "thorough":
         cj += coord_jobs(4, 5, COORD_SYSTEMS, conn=4,
                          cross=[[1, 1, 1, 1, 1], [1, 0, 0, 1, 1], [1, 1, 0, 1, 1], [1, 1, 1, 1, 1]])
         cj += coord_jobs(6, 7, COORD_SYSTEMS[:6], disps=(0, 3, -3, 4, -4))
-    process(ctx, tally, cj, "coords", "T-coords")
-    process(ctx, tally, snap_jobs(ctx.pick([(3, 3), (2, 5), (4, 5)], [(3, 3), (2, 5), (4, 5), (5, 5), (2, 7), (6, 4)])),
-            "snap_distance", "T-snap")
+    groups.append(("T-coords", cj))
+    groups.append(("T-snap", snap_jobs(ctx.pick([(3, 3), (2, 5), (4, 5)],
+                                                [(3, 3), (2, 5), (4, 5), (5, 5), (2, 7), (6, 4)]))))
+    process(ctx, tally, groups, "compiled")
+
+    # ---- step level: every pop of the interpreted search against the model
+    groups = [("R-steps", layout_jobs(3, 3, (4, 8), events=True, tag="replay_steps", stride=ctx.pick(12, 1),
+                                      phase=ctx.seed))]
+    if ctx.tier == "thorough":
+        groups.append(("R-steps", layout_jobs(2, 4, (4, 8), events=True, tag="replay_steps", desc=True)))
+    groups.append(("T-steps", maze_jobs(rng, ctx.pick(60, 1500), [(3, 4), (4, 3), (2, 6)], events=True)))
+    process(ctx, tally, groups, "steps", interp=True, flush_at=60000)
 
     ctx.extra["violations_by_key"] = tally.by_key
     ctx.extra["cases_by_group"] = {k: {"cases": v[0], "rejected": v[1]} for k, v in tally.by_tag.items()}
